@@ -335,8 +335,10 @@ def openBody (cx : NumCtx) (e : Env) (s : State) (deposit mint : Rat) (vk? : Opt
     all liquidity goes to the pending amounts, then everything pending is collected and the emptied position is
     deleted.  Returns what `collect_fee` returns, in token order `(amount0, amount1) = (WETH, oSQTH)`. -/
 def uniRedeem (cx : NumCtx) (e : Env) (s : State) (pos : PosKey) (toUser : Bool) : Res × Rat × Rat :=
-  -- `__remove_liquidity` and `__collect_fee` are @write_func: a closed pool raises before anything is touched
-  if !e.uniOpen then (.fail (.demeter "uni-closed") s, 0, 0)
+  -- `__remove_liquidity` and `__collect_fee` are @write_func: for an order of the strategy (`toUser`) a closed pool raises before
+  -- anything is touched.  `_redeem_uni_token` (the vault's own redemption, `toUser = false`) opens the gate around its two pool
+  -- calls and restores it: a liquidation also happens on a bar for which the pool has no data row, at the last known pool price.
+  if toUser && !e.uniOpen then (.fail (.demeter "uni-closed") s, 0, 0)
   else
   match AList.get? s.positions pos with
   | none => (.fail (.key "position") s, 0, 0)
